@@ -189,6 +189,8 @@ type interpreter struct {
 	blobs    []value
 	panicSite string
 	mapAcc    map[*omap]*accessState
+	watched   map[*value]string       // cells of the VM's shared bookkeeping (fields of runtime.VM), by name
+	cellAcc   map[*value]*accessState
 	syncVC    map[interface{}]vclock
 }
 
